@@ -84,6 +84,12 @@ def refs_of_graph(g, Expr):
     out = {}
     for e in I.walk(g, Expr):
         r = e.props.get("ref")
+        if not isinstance(r, str) and e.kind == "constant" and not isinstance(e.props.get("reference_name"), str):
+            # auto-generated constant names are computed on demand and never stored
+            try:
+                r = e.ref
+            except Exception:
+                r = None
         if isinstance(r, str):
             out.setdefault(r, []).append(e)
     return out
@@ -130,14 +136,31 @@ class Oracle:
         import math
 
         out = []
+        free = {}  # id(expr) -> depends on a symbol
+        it = I.NpInterp(self.Expr)
+        it.env = {}
+        vals = {}
         for e in I.walk(g, self.Expr):
-            if e.kind == "constant":
-                v = e.operands[0]
-                if isinstance(v, (int, float)) and not isinstance(v, bool):
+            if e.kind == "symbol":
+                free[id(e)] = True
+                continue
+            dep = any(free.get(id(o), False) for o in e.operands if isinstance(o, self.Expr) and not (e.kind == "constant" and o is e.operands[0]))
+            free[id(e)] = dep
+            if dep or e.kind in ("apply", "list"):
+                continue
+            try:
+                import numpy
+
+                with numpy.errstate(all="ignore"):
+                    vals[id(e)] = it.node(e, lambda o: vals[id(o)])
+                v = vals[id(e)]
+                if getattr(v, "dtype", None) is not None and v.dtype.kind == "f":
                     v = float(v)
                     if v == v and abs(v) != math.inf:
                         out += [v, -v, math.nextafter(v, math.inf), math.nextafter(v, -math.inf)]
-        return out[:200]
+            except Exception:
+                continue
+        return out[:400]
 
     def sample_args(self, params, boundary=()):
         import numpy
